@@ -270,6 +270,17 @@ def replay(subject, behaviour, cipher=None, halg=None, reimport_every=False):
     return {'meta': subject.meta(), 'events': events, 'behaviour': [list(b) for b in behaviour]}
 
 
+def _set(trace, fn, need_locked=False):
+    """apply fn to the observation of the last suitable step of a trace copy (self-tests)."""
+    for e in reversed(trace['events']):
+        o = e['obs']
+        if need_locked and (not o['is_protected'] or o['is_unlocked']):
+            continue
+        fn(o)
+        return trace
+    return None
+
+
 def fast_s2k():
     """PGPy always writes coded count 255 (65 MB hashed per derivation); the bulk replays lower it through the
     HashAlgorithm.tuned_count knob. A few behaviours per run keep the default."""
@@ -345,6 +356,37 @@ def generate(ctx, focus):
             if isinstance(p, list) and p and p[0] == 'REJECT':
                 rej.append((base + p[1] - 1, p[2], p[3]))
     ctx.traces += len(traces) - len({t for t, _, _ in rej})
+    if not rej:
+        import copy as _copy
+        cands = [t for t in traces if len(t['events']) >= 3 and t['events'][-1]['act'][0] != 'use'][:6]
+        if focus == 'C06':
+            cor = [('sign succeeds on a locked key', lambda t: _set(t, lambda o: o.update(sign='ok' if o['sign'] == 'refused' else 'refused'))),
+                   ('secret integer reachable while locked', lambda t: _set(t, lambda o: o.update(secret_in_graph=True), need_locked=True)),
+                   ('is_unlocked reported wrongly', lambda t: _set(t, lambda o: o.update(is_unlocked=not o['is_unlocked']))),
+                   ('secret in the export of a protected key', lambda t: _set(t, lambda o: o.update(secret_in_export=True), need_locked=True))]
+        elif focus == 'C07':
+            cor = [('secret octets in the public export', lambda t: _set(t, lambda o: o['pub'].update(secret_in_export=True))),
+                   ('a private operation succeeds on the public key', lambda t: _set(t, lambda o: o['pub'].update(private_ops='sign succeeded'))),
+                   ('public export contains a secret key packet', lambda t: _set(t, lambda o: o['pub'].update(blob=o['privblob']))),
+                   ('one identity missing from the public key', lambda t: _set(t, lambda o: o['pub'].update(uids=o['pub']['uids'][1:])))]
+        else:
+            cor = [('fingerprint changes at one step', lambda t: _set(t, lambda o: o.update(fingerprints=['0' * 40] + o['fingerprints'][1:]))),
+                   ('key id is not the low 64 bits', lambda t: (t['meta']['keyids'][0].__setitem__(0, t['meta']['keyids'][0][0] ^ 1), t)[1]),
+                   ('preimage lacks the length octets', lambda t: (t['meta']['preimages'].__setitem__(0, t['meta']['preimages'][0][:1] + t['meta']['preimages'][0][3:]), t)[1])]
+        batch = []
+        for n_, (name, fn) in enumerate(cor):
+            for cand in cands[n_ % len(cands):] + cands:
+                c = fn(_copy.deepcopy(cand))
+                if c is not None:
+                    batch.append(c)
+                    break
+            else:
+                raise MachineryError('self-test %s: corruption %r applies to no trace' % (focus, name))
+        r = ctx.trace('Trace_KeyLife', {'traces': batch}, name='keylife-selftest', env={'FOCUS': focus})
+        rejected = {p[1] for p in r.prints if isinstance(p, list) and p and p[0] == 'REJECT'}
+        if len(rejected) != len(batch):
+            raise MachineryError('self-test %s: Trace_KeyLife accepted corrupted traces: rejected %s of %s' % (focus, sorted(rejected), [n for n, _ in cor]))
+        ctx.extra['selftest_corruptions_rejected'] = [n for n, _ in cor]
     ctx.extra['behaviours_replayed'] = len(traces)
     ctx.extra['steps_observed'] = sum(len(t['events']) for t in traces)
     return traces, rej
